@@ -5,7 +5,7 @@ import itertools
 import random
 from typing import Any, Dict, Iterable, List
 
-from harness.core import Case, Check, Finding, call, canon
+from harness.core import Case, Check, Finding, OUTSIDE, call, canon
 
 
 def _real():
@@ -30,6 +30,39 @@ def _py_points(inp: Dict[str, Any]):
     return pts
 
 
+def _list_class(pts) -> str:
+    """where a list input stands with respect to the statement: 'wellformed' (a non-empty sequence of integer pairs:
+    the quantifier), 'malformed' (empty, or a non-sequence / non-integer where a point / coordinate should be: "rejected
+    with an error"), else 'outside' (elements that are not pairs — DESIGN §9: the model mirrors the code, nothing is
+    claimed)"""
+    if len(pts) > 0 and all(isinstance(p, list) and len(p) == 2 and all(isinstance(v, int) for v in p) for p in pts):
+        return 'wellformed'
+    if len(pts) == 0 or any(p is None or any(v is None for v in p) for p in pts):
+        return 'malformed'
+    return 'outside'
+
+
+def _str_outside(s: str) -> bool:
+    """a points string of integer "x,y" pairs AND some blank-separated token that is not a pair ('1,2 x 3,4',
+    '1,2,3 4,5', doubled / leading / trailing blanks): not one of the "accepted input forms" of the quantifier, and not
+    the empty or non-integer list the last clause speaks of (DESIGN §9: outside the statement, mirrored only)"""
+    toks = [t.split(',') for t in s.split(' ')]
+    pairs = [t for t in toks if len(t) == 2]
+    if not pairs or len(pairs) == len(toks):
+        return False
+    try:
+        [(int(a), int(b)) for a, b in pairs]
+    except ValueError:
+        return False        # a non-integer pair: "rejected" whatever else the string holds
+    return True
+
+
+def _outside(case: Case) -> bool:
+    if case.kind == 'str':
+        return _str_outside(case.input['s'])
+    return _list_class(case.input['points']) == 'outside'
+
+
 def _dump(c) -> Dict[str, Any]:
     return canon({'points': [list(p) for p in c.points], 'x': c.x, 'y': c.y, 'w': c.w, 'h': c.h,
                   'left': c.left, 'right': c.right, 'top': c.top, 'bottom': c.bottom,
@@ -44,7 +77,9 @@ class C03(Check):
                                            'Coords.height', 'Baseline.__init__']}
     level_note = ('proved for every non-empty integer point list (no bound on length or magnitude): exact box, '
                   'point-string round trip, rejection of empty / non-integer input; Python int() on non-ASCII '
-                  'digits and 3-or-more-element points are outside the model and not generated')
+                  'digits and 3-or-more-element points are outside the model and not generated; correspondence: rejected '
+                  'inputs are compared as rejected-vs-accepted (the statement fixes no exception class; the model keeps '
+                  'the class the code raises today), accepted inputs value by value')
     assumptions = ['CPython int()/str() agree with pyInt?/showInt on ASCII input (sampled by the correspondence)',
                    'list.__getitem__/isinstance semantics of parse_points mirrored by hand']
     nontrivial_rule = ('distinct inputs; non-trivial = at least two points or a malformed element '
@@ -94,6 +129,11 @@ class C03(Check):
             out.append(Case('list', {'points': pts, 'nonint': rng.choice(list(NONINT)),
                                      'notseq': rng.choice(list(NOTSEQ)), 'as_tuple': rng.random() < 0.5},
                             ['random', 'malformed']))
+        # inputs the statement neither quantifies over nor names as "rejected" (DESIGN §9): model and code are still
+        # compared on them, a difference is recorded in the evidence only, and the oracle does not judge them
+        for c in out:
+            if _outside(c) and OUTSIDE not in c.tags:
+                c.tags.append(OUTSIDE)
         return out
 
     def _rand_str(self, rng: random.Random) -> str:
@@ -150,6 +190,12 @@ class C03(Check):
 
     def compare(self, case, impl_out, model_out):
         m = model_out[0]
+        # the statement: "an empty or non-integer point list is rejected with an error rather than accepted" — it
+        # fixes THAT such an input is rejected, not the exception class (nor which statement raises first), and no
+        # other clause speaks of exceptions: rejections are compared as rejected-vs-accepted; every accepted input
+        # is compared value by value as before
+        if 'err' in impl_out and 'err' in m:
+            return None
         if case.kind == 'list':
             i = {k: v for k, v in impl_out.items() if k in ('ok', 'err')}
             return None if i == m else f'impl={i} model={m}'
@@ -166,10 +212,11 @@ class C03(Check):
 
         def bad(key, what):
             fs.append(Finding(f'C03:{key}', what, case, out))
+        if _outside(case):
+            return fs
         if case.kind in ('list', 'roundtrip'):
             pts = case.input['points']
-            wellformed = len(pts) > 0 and all(isinstance(p, list) and len(p) == 2 and
-                                              all(isinstance(v, int) for v in p) for p in pts)
+            wellformed = _list_class(pts) == 'wellformed'
             if wellformed:
                 if 'ok' not in out:
                     bad('valid-rejected', f'valid point list rejected with {out}')
@@ -191,7 +238,7 @@ class C03(Check):
                     bad('baseline', 'Baseline differs from Coords on the same points')
             else:
                 # the statement: an empty or non-integer point list is rejected
-                malformed = len(pts) == 0 or any(p is None or any(v is None for v in p) for p in pts)
+                malformed = _list_class(pts) == 'malformed'
                 if malformed and 'err' not in out:
                     bad('malformed-accepted', 'empty or non-integer point list accepted')
         elif case.kind == 'str':
@@ -200,8 +247,8 @@ class C03(Check):
                 bad('empty-string-accepted', 'empty points string accepted')
             # the PageXML points string: blank-separated "x,y" pairs.  A pair with a field that
             # Python's int() does not accept is a non-integer point and must be rejected; when all
-            # pairs are integers they are exactly the points, in order (other tokens are outside the
-            # statement and ignored here, DESIGN §9)
+            # pairs are integers they are exactly the points, in order (strings with other tokens next to
+            # pairs are outside the statement, DESIGN §9: not judged, see _str_outside)
             pairs = [t.split(',') for t in s.split(' ') if len(t.split(',')) == 2]
             if pairs:
                 try:
